@@ -383,3 +383,55 @@ def dict_from_zip(t):
                                        ("zipelem", 1, z[2]))):
             return z[2][0], z[2][1]
     return None
+
+
+def fuse_comps(t):
+    """[f(x) for x in [g(y) for y in Y]]  ->  [f(g(y)) for y in Y]  when the
+    outer comprehension has one generator without conditions."""
+    def f(x):
+        if x[0] == "comp" and len(x[3]) == 1 and not x[3][0][2]:
+            it = x[3][0][1]
+            if isinstance(it, tuple) and it and it[0] == "comp" and \
+                    it[1] in ("list", "gen", "tuple"):
+                inner_elt = it[2]
+                el = ("elem", it)
+                new_elt = map_term(x[2], lambda y: inner_elt if y == el
+                                   else y)
+                if not any(y == el for y in _walk(new_elt)):
+                    return ("comp", x[1], new_elt, it[3])
+        return x
+    return map_term(t, f)
+
+
+def _walk(t):
+    yield t
+    if isinstance(t, tuple):
+        for x in t:
+            if isinstance(x, tuple):
+                yield from _walk(x)
+
+
+def concat_parts(t):
+    """Flatten a + b + ... (any association), displays split into items:
+    [('item', x) | ('splice', x)]."""
+    if t[0] == "bin" and t[1] == "+":
+        return concat_parts(t[2]) + concat_parts(t[3])
+    if t[0] in ("list", "tuple"):
+        return [("item", x) for x in t[1]]
+    return [("splice", t)]
+
+
+def bound_args(prog, t):
+    """formal -> actual term for a resolved repo call term; None when the
+    callee is unknown."""
+    if t[0] != "call":
+        return None
+    f = prog.funcs.get(t[1])
+    if f is None:
+        return None
+    ps = [p for p in f.params if not p.startswith("*")]
+    if f.cls is not None and ps and ps[0] in ("self", "cls"):
+        ps = ps[1:]
+    out = dict(zip(ps, t[2]))
+    out.update(dict(t[3]))
+    return out
